@@ -26,39 +26,71 @@ theorem fget_fdel_none {c : FS} {q : Path} (p : Path) (h : fget c q = none) : fg
   · subst e; exact fget_fdel_same c q
   · rwa [fget_fdel_ne c e]
 
+/-! ### dangling symlinks -/
+
+theorem hasLink_iff (c : CD) (p : Path) : hasLink c p = true ↔ p ∈ c.links := by
+  simp [hasLink]
+
+theorem hasLink_unlink_same (c : CD) (p : Path) : hasLink (unlink c p) p = false := by
+  cases h : hasLink (unlink c p) p with
+  | false => rfl
+  | true => rw [hasLink_iff] at h; simp [unlink] at h
+
+theorem hasLink_unlink_ne (c : CD) {p q : Path} (h : q ≠ p) : hasLink (unlink c p) q = hasLink c q := by
+  rw [Bool.eq_iff_iff, hasLink_iff, hasLink_iff]
+  simp [unlink, h]
+
+/-- links only disappear -/
+theorem hasLink_unlink_of {c : CD} {p q : Path} (h : hasLink (unlink c p) q = true) : hasLink c q = true := by
+  rw [hasLink_iff] at h ⊢
+  simp [unlink] at h
+  exact h.1
+
 /-! ### cache reads in terms of `cHit` -/
 
-theorem cHit_of_dir {dirs : List Path} (c : FS) {t : FileType} {id : Name} (h : hasDir dirs (cpath t id) = true) :
+theorem cHit_of_dir {dirs : List Path} (c : CD) {t : FileType} {id : Name} (h : hasDir dirs (cpath t id) = true) :
     cHit dirs c t id = none := by
   simp [cHit, h]
 
-theorem cHit_some {dirs : List Path} {c : FS} {t : FileType} {id : Name} {d : Bytes} (h : cHit dirs c t id = some d) :
-    hasDir dirs (cpath t id) = false ∧ fget c (cpath t id) = some d := by
+theorem cHit_of_link (dirs : List Path) {c : CD} {t : FileType} {id : Name} (h : hasLink c (cpath t id) = true) :
+    cHit dirs c t id = none := by
+  simp [cHit, h]
+
+theorem cHit_some {dirs : List Path} {c : CD} {t : FileType} {id : Name} {d : Bytes} (h : cHit dirs c t id = some d) :
+    hasDir dirs (cpath t id) = false ∧ hasLink c (cpath t id) = false ∧ fget c.files (cpath t id) = some d := by
   unfold cHit at h
-  by_cases hd : hasDir dirs (cpath t id) = true
+  by_cases hd : (hasDir dirs (cpath t id) || hasLink c (cpath t id)) = true
   · simp [hd] at h
-  · simp [hd] at h; exact ⟨by simpa using hd, h⟩
+  · simp only [hd, Bool.false_eq_true, if_false] at h
+    simp only [Bool.or_eq_true, not_or, Bool.not_eq_true] at hd
+    exact ⟨hd.1, hd.2, h⟩
+
+theorem cHit_eq_fget {dirs : List Path} {c : CD} {t : FileType} {id : Name} (hd : hasDir dirs (cpath t id) = false)
+    (hk : hasLink c (cpath t id) = false) : cHit dirs c t id = fget c.files (cpath t id) := by
+  simp [cHit, hd, hk]
 
 /-- `Cache::read_full` answers `Ok(Some(d))` exactly when a regular file with bytes `d` is at the entry path. -/
-theorem cReadFull_hit_iff (dirs : List Path) (c : FS) (t : FileType) (id : Name) (d : Bytes) :
+theorem cReadFull_hit_iff (dirs : List Path) (c : CD) (t : FileType) (id : Name) (d : Bytes) :
     cReadFull dirs c t id = .hit d ↔ cHit dirs c t id = some d := by
   unfold cReadFull cHit
   by_cases hd : hasDir dirs (cpath t id) = true
   · simp [hd]
-  · simp only [hd, Bool.false_eq_true, if_false]
-    cases fget c (cpath t id) <;> simp
+  · by_cases hk : hasLink c (cpath t id) = true
+    · simp [hd, hk]
+    · simp only [hd, hk, Bool.false_eq_true, if_false, Bool.or_self]
+      cases fget c.files (cpath t id) <;> simp
 
-theorem cReadFull_dir {dirs : List Path} (c : FS) {t : FileType} {id : Name} (h : hasDir dirs (cpath t id) = true) :
+theorem cReadFull_dir {dirs : List Path} (c : CD) {t : FileType} {id : Name} (h : hasDir dirs (cpath t id) = true) :
     cReadFull dirs c t id = .error := by
   simp [cReadFull, h]
 
-theorem cReadPartial_dir {dirs : List Path} (c : FS) {t : FileType} {id : Name} (h : hasDir dirs (cpath t id) = true)
+theorem cReadPartial_dir {dirs : List Path} (c : CD) {t : FileType} {id : Name} (h : hasDir dirs (cpath t id) = true)
     (off : Nat) {len : Nat} (hlen : 0 < len) : cReadPartial dirs c t id off len = .error := by
   have : len ≠ 0 := by omega
   simp [cReadPartial, h, this]
 
 /-- a ranged cache read in terms of `cHit` (non-empty range) -/
-theorem cReadPartial_eq (dirs : List Path) (c : FS) (t : FileType) (id : Name) (off : Nat) {len : Nat} (hlen : 0 < len) :
+theorem cReadPartial_eq (dirs : List Path) (c : CD) (t : FileType) (id : Name) (off : Nat) {len : Nat} (hlen : 0 < len) :
     cReadPartial dirs c t id off len =
       match cHit dirs c t id with
       | some d => if off + len ≤ d.length then .hit ((d.drop off).take len) else .error
@@ -67,39 +99,59 @@ theorem cReadPartial_eq (dirs : List Path) (c : FS) (t : FileType) (id : Name) (
   unfold cReadPartial cHit
   by_cases hd : hasDir dirs (cpath t id) = true
   · simp [hd, hne]
-  · simp only [hd, Bool.false_eq_true, if_false]
-    cases fget c (cpath t id) <;> simp [hne]
+  · by_cases hk : hasLink c (cpath t id) = true
+    · simp [hd, hk]
+    · simp only [hd, hk, Bool.false_eq_true, if_false, Bool.or_self]
+      cases fget c.files (cpath t id) <;> simp [hne]
 
 /-! ### cache writes and removals -/
 
-/-- the cache write of `(t, id)` reaches the entry path: no directory at the temp path nor at the entry path -/
-def writes (dirs : List Path) (t : FileType) (id : Name) : Bool :=
-  !hasDir dirs (ctmp t id) && !hasDir dirs (cpath t id)
+/-- the cache write of `(t, id)` reaches the entry path: no directory or dangling symlink at the temp path, no directory at
+the entry path -/
+def writes (dirs : List Path) (c : CD) (t : FileType) (id : Name) : Bool :=
+  !hasDir dirs (ctmp t id) && !hasLink c (ctmp t id) && !hasDir dirs (cpath t id)
+
+/-- the cache write of `(t, id)` cannot even start: a directory or a dangling symlink at the temp path -/
+def tmpBlocked (dirs : List Path) (c : CD) (t : FileType) (id : Name) : Bool :=
+  hasDir dirs (ctmp t id) || hasLink c (ctmp t id)
 
 /-- After `Cache::write_bytes` every entry is as before, except the written one, which holds the new bytes — if the
 write got through (otherwise it is as before too). -/
-theorem cHit_cWrite {L : Nat} (dirs : List Path) (c : FS) {t t' : FileType} {id id' : Name} (hl : id.length = L)
+theorem cHit_cWrite {L : Nat} (dirs : List Path) (c : CD) {t t' : FileType} {id id' : Name} (hl : id.length = L)
     (hl' : id'.length = L) (d : Bytes) :
     cHit dirs (cWrite dirs c t id d) t' id' =
-      if (t' = t ∧ id' = id) ∧ writes dirs t id = true then some d else cHit dirs c t' id' := by
+      if (t' = t ∧ id' = id) ∧ writes dirs c t id = true then some d else cHit dirs c t' id' := by
   have hnt : cpath t' id' ≠ ctmp t id := cpath_ne_ctmp (by rw [hl, hl'])
   unfold cWrite
   by_cases h1 : hasDir dirs (ctmp t id) = true
   · simp [h1, writes]
-  · by_cases h2 : hasDir dirs (cpath t id) = true
-    · simp only [h1, h2, Bool.false_eq_true, if_false, if_true, writes, Bool.not_true, Bool.and_false, and_false]
+  · by_cases h1' : hasLink c (ctmp t id) = true
+    · simp only [h1, h1', Bool.false_eq_true, if_false, if_true, writes, Bool.not_true, Bool.and_false, Bool.false_and,
+        and_false]
       unfold cHit
-      rw [fget_fput_ne _ d hnt]
-    · simp only [h1, h2, Bool.false_eq_true, if_false, writes, Bool.not_false, Bool.and_self, and_true]
-      by_cases e : t' = t ∧ id' = id
-      · obtain ⟨e1, e2⟩ := e; subst e1; subst e2
-        simp [cHit, h2, cWriteFile, fget_fput_same]
-      · have hne : cpath t' id' ≠ cpath t id := fun h => e (cpath_inj h)
-        simp only [e, if_false]
-        unfold cHit cWriteFile
-        rw [fget_fput_ne _ d hne, fget_fdel_ne _ hnt, fget_fput_ne _ d hnt]
+      rw [hasLink_unlink_ne c hnt]; rfl
+    · by_cases h2 : hasDir dirs (cpath t id) = true
+      · simp only [h1, h1', h2, Bool.false_eq_true, if_false, if_true, writes, Bool.not_true, Bool.and_false, and_false]
+        unfold cHit hasLink
+        simp only
+        rw [fget_fput_ne _ d hnt]
+      · simp only [h1, h1', h2, Bool.false_eq_true, if_false, writes, Bool.not_false, Bool.and_self, and_true]
+        by_cases e : t' = t ∧ id' = id
+        · obtain ⟨e1, e2⟩ := e; subst e1; subst e2
+          have hk : cpath t' id' ∉ (unlink c (cpath t' id')).links := by
+            intro hm
+            have := (hasLink_iff _ _).2 hm
+            rw [hasLink_unlink_same] at this; cases this
+          simp [cHit, h2, hasLink, hk, cWriteFile, fget_fput_same]
+        · have hne : cpath t' id' ≠ cpath t id := fun h => e (cpath_inj h)
+          have hk := hasLink_unlink_ne c hne
+          simp only [hasLink] at hk
+          simp only [e, if_false]
+          unfold cHit cWriteFile hasLink
+          simp only
+          rw [hk, fget_fput_ne _ d hne, fget_fdel_ne _ hnt, fget_fput_ne _ d hnt]
 
-theorem cHit_cRemove (dirs : List Path) (c : FS) (t t' : FileType) (id id' : Name) :
+theorem cHit_cRemove (dirs : List Path) (c : CD) (t t' : FileType) (id id' : Name) :
     cHit dirs (cRemove dirs c t id) t' id' = if t' = t ∧ id' = id then none else cHit dirs c t' id' := by
   unfold cRemove
   by_cases e : t' = t ∧ id' = id
@@ -110,31 +162,34 @@ theorem cHit_cRemove (dirs : List Path) (c : FS) (t t' : FileType) (id id' : Nam
   · have hne : cpath t' id' ≠ cpath t id := fun h => e (cpath_inj h)
     by_cases h : hasDir dirs (cpath t id) = true
     · simp [h, e]
-    · simp only [h, Bool.false_eq_true, if_false, e]
-      unfold cHit
-      rw [fget_fdel_ne _ hne]
+    · have hk := hasLink_unlink_ne c hne
+      simp only [hasLink] at hk
+      simp only [h, Bool.false_eq_true, if_false, e]
+      unfold cHit hasLink
+      simp only
+      rw [hk, fget_fdel_ne _ hne]
 
 /-- `Cache::remove` only deletes. -/
-theorem cHit_cRemove_some {dirs : List Path} {c : FS} {t t' : FileType} {id id' : Name} {d : Bytes}
+theorem cHit_cRemove_some {dirs : List Path} {c : CD} {t t' : FileType} {id id' : Name} {d : Bytes}
     (h : cHit dirs (cRemove dirs c t id) t' id' = some d) : cHit dirs c t' id' = some d := by
   rw [cHit_cRemove] at h
   by_cases e : t' = t ∧ id' = id
   · simp [e] at h
   · simpa [e] using h
 
-theorem cHit_removeAll_some {dirs : List Path} {c : FS} {t t' : FileType} {id' : Name} {d : Bytes} (es : List (Name × Nat))
+theorem cHit_removeAll_some {dirs : List Path} {c : CD} {t t' : FileType} {id' : Name} {d : Bytes} (es : List (Name × Nat))
     (h : cHit dirs (removeAll dirs c t es) t' id' = some d) : cHit dirs c t' id' = some d := by
   induction es generalizing c with
   | nil => exact h
   | cons e rest ih => exact cHit_cRemove_some (ih (c := cRemove dirs c t e.1) h)
 
-theorem cHit_removeAll_none_of_none {dirs : List Path} {c : FS} {t t' : FileType} {id' : Name} (es : List (Name × Nat))
+theorem cHit_removeAll_none_of_none {dirs : List Path} {c : CD} {t t' : FileType} {id' : Name} (es : List (Name × Nat))
     (h : cHit dirs c t' id' = none) : cHit dirs (removeAll dirs c t es) t' id' = none := by
   cases h' : cHit dirs (removeAll dirs c t es) t' id' with
   | none => rfl
   | some d => rw [cHit_removeAll_some es h'] at h; cases h
 
-theorem removeAll_removes {dirs : List Path} {c : FS} {t : FileType} {es : List (Name × Nat)} {e : Name × Nat} (he : e ∈ es) :
+theorem removeAll_removes {dirs : List Path} {c : CD} {t : FileType} {es : List (Name × Nat)} {e : Name × Nat} (he : e ∈ es) :
     cHit dirs (removeAll dirs c t es) t e.1 = none := by
   induction es generalizing c with
   | nil => cases he
@@ -146,30 +201,58 @@ theorem removeAll_removes {dirs : List Path} {c : FS} {t : FileType} {es : List 
       rw [cHit_cRemove]; simp
     · exact ih h
 
+/-! ### links only disappear -/
+
+theorem cWrite_links {dirs : List Path} {c : CD} {t : FileType} {id : Name} {d : Bytes} {p : Path}
+    (h : hasLink (cWrite dirs c t id d) p = true) : hasLink c p = true := by
+  unfold cWrite at h
+  split at h
+  · exact h
+  · split at h
+    · exact hasLink_unlink_of h
+    · split at h
+      · exact h
+      · exact hasLink_unlink_of (c := c) (p := cpath t id) h
+
+theorem cRemove_links {dirs : List Path} {c : CD} {t : FileType} {id : Name} {p : Path}
+    (h : hasLink (cRemove dirs c t id) p = true) : hasLink c p = true := by
+  unfold cRemove at h
+  split at h
+  · exact h
+  · exact hasLink_unlink_of (c := c) (p := cpath t id) h
+
+theorem removeAll_links {dirs : List Path} {c : CD} {t : FileType} (es : List (Name × Nat)) {p : Path}
+    (h : hasLink (removeAll dirs c t es) p = true) : hasLink c p = true := by
+  induction es generalizing c with
+  | nil => exact h
+  | cons e rest ih => exact cRemove_links (ih (c := cRemove dirs c t e.1) h)
+
 /-! ### the cache listing -/
 
-theorem cEntry_cpath {L : Nat} {dirs : List Path} (t : FileType) {id : Name} (hn : isCacheName L id = true) (d : Bytes)
-    (hd : hasDir dirs (cpath t id) = false) : cEntry L dirs t (cpath t id, d) = some (id, d.length) := by
+theorem cEntry_cpath {L : Nat} {dirs : List Path} {c : CD} (t : FileType) {id : Name} (hn : isCacheName L id = true) (d : Bytes)
+    (hd : hasDir dirs (cpath t id) = false) (hk : hasLink c (cpath t id) = false) :
+    cEntry L dirs c t (cpath t id, d) = some (id, d.length) := by
   have hd' : hasDir dirs [t.dirname, List.take 2 id, id] = false := hd
-  simp [cEntry, cpath, hn, hd']
+  have hk' : hasLink c [t.dirname, List.take 2 id, id] = false := hk
+  simp [cEntry, cpath, hn, hd', hk']
 
 /-- a directory is never a cache entry (`is_file`) -/
-theorem cEntry_dir {L : Nat} {dirs : List Path} (t : FileType) {p : Path} (d : Bytes) (hd : hasDir dirs p = true) :
-    cEntry L dirs t (p, d) = none := by
+theorem cEntry_dir {L : Nat} {dirs : List Path} {c : CD} (t : FileType) {p : Path} (d : Bytes) (hd : hasDir dirs p = true) :
+    cEntry L dirs c t (p, d) = none := by
   unfold cEntry
   split
   · simp [hd]
   · rfl
 
-theorem mem_cList {L : Nat} {dirs : List Path} {c : FS} {t : FileType} {id : Name} {d : Bytes}
+theorem mem_cList {L : Nat} {dirs : List Path} {c : CD} {t : FileType} {id : Name} {d : Bytes}
     (hn : isCacheName L id = true) (h : cHit dirs c t id = some d) : (id, d.length) ∈ cList L dirs c t := by
-  obtain ⟨hd, hf⟩ := cHit_some h
+  obtain ⟨hd, hk, hf⟩ := cHit_some h
   unfold cList
   rw [List.mem_filterMap]
-  exact ⟨(cpath t id, d), mem_of_fget hf, cEntry_cpath t hn d hd⟩
+  exact ⟨(cpath t id, d), mem_of_fget hf, cEntry_cpath t hn d hd hk⟩
 
 /-- What survives a clean-up has the size the listing reports for that id. -/
-theorem removeNotInList_survivor {L : Nat} {dirs : List Path} {c : FS} {t : FileType} {list : List (Name × Nat)} {id : Name}
+theorem removeNotInList_survivor {L : Nat} {dirs : List Path} {c : CD} {t : FileType} {list : List (Name × Nat)} {id : Name}
     {d : Bytes} (hn : isCacheName L id = true) (h : cHit dirs (removeNotInList L dirs c t list) t id = some d) :
     sizeOf? list id = some d.length := by
   unfold removeNotInList at h
@@ -184,9 +267,13 @@ theorem removeNotInList_survivor {L : Nat} {dirs : List Path} {c : FS} {t : File
     rw [this] at h; cases h
 
 /-- The clean-up only deletes. -/
-theorem removeNotInList_sub {L : Nat} {dirs : List Path} {c : FS} {t t' : FileType} {list : List (Name × Nat)} {id : Name}
+theorem removeNotInList_sub {L : Nat} {dirs : List Path} {c : CD} {t t' : FileType} {list : List (Name × Nat)} {id : Name}
     {d : Bytes} (h : cHit dirs (removeNotInList L dirs c t list) t' id = some d) : cHit dirs c t' id = some d :=
   cHit_removeAll_some _ h
+
+theorem removeNotInList_links {L : Nat} {dirs : List Path} {c : CD} {t : FileType} {list : List (Name × Nat)} {p : Path}
+    (h : hasLink (removeNotInList L dirs c t list) p = true) : hasLink c p = true :=
+  removeAll_links _ h
 
 theorem isCacheName_length {L : Nat} {id : Name} (h : isCacheName L id = true) : id.length = L := by
   simp [isCacheName] at h; exact h.1
